@@ -11,7 +11,7 @@ from typing import List
 
 from ..astutil import Defs
 from ..cfg import cfg_of
-from ..core import AnalysisError, attr_chain, kwarg, short, walk_no_nested, walk_stmts
+from ..core import AnalysisError, attr_chain, cshort, kwarg, short, walk_no_nested, walk_stmts
 
 
 def run(ctx) -> None:
@@ -121,25 +121,48 @@ def _typing(ctx) -> None:
     ctx.ob("b.cell-typing", f, "order", not problems, "blank -> None; int; float; stripped text", f.node, message="; ".join(problems))
 
 
-def _shape(ctx) -> None:
-    prog = ctx.prog
+def _roles(prog):
+    """Roles of the locals of _read_csv_from_file, found by dataflow: reader, all records, header, data records."""
     g = prog.func("csv._read_csv_from_file")
     d = Defs(g)
-    problems = []
-    # header / rows split
-    hdrs = sorted(short(v) for v in d.values("header"))
-    rows = sorted(short(v) for v in d.values("rows"))
-    allr = d.values("all_rows")
-    if not (allr and short(allr[0]) == "list(reader)"):
-        problems.append("all records are not materialised from the reader")
-    if hdrs != sorted(["all_rows[0]", "[f'col_{i}' for i in range(len(all_rows[0]))]"]):
-        problems.append(f"header is {hdrs}; expected the first record, or col_0.. for header-less input")
-    if rows != sorted(["all_rows[1:]", "all_rows"]):
-        problems.append(f"data records are {rows}; expected all_rows[1:] with a header, all_rows without")
+    r = {"reader": None, "all": None, "header": None, "rows": None, "hh": None}
+    for n, lst in d.assigns.items():
+        for v, st, how in lst:
+            if v is not None and isinstance(v, ast.Call) and short(v.func) == "csv.reader":
+                r["reader"] = n
+    for n, lst in d.assigns.items():
+        for v, st, how in lst:
+            if v is not None and r["reader"] and short(v) == f"list({r['reader']})":
+                r["all"] = n
     hh = [s for s in g.body if isinstance(s, ast.If) and short(s.test) == "has_header"]
-    if not hh or "all_rows[0]" not in short(hh[0].body[0]) or "all_rows[1:]" not in short(hh[0], 500).split("else")[0]:
-        problems.append("the has_header branch does not take the first record as header and the rest as data")
+    if hh and r["all"]:
+        r["hh"] = hh[0]
+        for s in hh[0].body:
+            if isinstance(s, ast.Assign) and isinstance(s.targets[0], ast.Name):
+                if short(s.value) == f"{r['all']}[0]":
+                    r["header"] = s.targets[0].id
+                elif short(s.value) == f"{r['all']}[1:]":
+                    r["rows"] = s.targets[0].id
+    return g, d, r
+
+
+def _shape(ctx) -> None:
+    prog = ctx.prog
+    g, d, R = _roles(prog)
+    problems = []
+    if not R["reader"] or not R["all"]:
+        problems.append("all records are not materialised from csv.reader(...) with list()")
+    if not R["header"] or not R["rows"]:
+        problems.append("with a header the first record is not taken as header and the rest as data records")
+    else:
+        hdrs = sorted(cshort(v, {R["all"]: "ALL"}) for v in d.values(R["header"]))
+        rows = sorted(cshort(v, {R["all"]: "ALL"}) for v in d.values(R["rows"]))
+        if hdrs != sorted(["ALL[0]", "[f'col_{_0}' for _0 in range(len(ALL[0]))]"]):
+            problems.append(f"header is {hdrs}; expected the first record, or col_0.. for header-less input")
+        if rows != sorted(["ALL[1:]", "ALL"]):
+            problems.append(f"data records are {rows}; expected all records but the first with a header, all records without")
     ctx.ob("c.shape", g, "split", not problems, "header / data split", g.node, message="; ".join(problems))
+    HEADER, ROWS = R["header"] or "header", R["rows"] or "rows"
     # transposition
     problems = []
     outer = [s for s in g.body if isinstance(s, ast.For)]
@@ -154,13 +177,13 @@ def _shape(ctx) -> None:
         lp = outer[0]
         r = lp.iter
         ci = lp.target.id if isinstance(lp.target, ast.Name) else "?"
-        if not (isinstance(r, ast.Call) and short(r.func) == "range" and len(r.args) == 1 and short(d.resolve(r.args[0])) == "len(header)"):
+        if not (isinstance(r, ast.Call) and short(r.func) == "range" and len(r.args) == 1 and short(d.resolve(r.args[0])) == f"len({HEADER})"):
             problems.append(f"columns range over `{short(r)}`, not range(len(header)): one column per header cell")
         app0 = [n for n in walk_no_nested(lp) if isinstance(n, ast.Call) and short(n.func) == f"{colsv}.append"]
         if app0 and isinstance(app0[0].args[0], ast.Call) and app0[0].args[0].args and isinstance(app0[0].args[0].args[0], ast.Name):
             buf = app0[0].args[0].args[0].id
         inner = [s for s in lp.body if isinstance(s, ast.For)]
-        if len(inner) != 1 or short(inner[0].iter) != "rows":
+        if len(inner) != 1 or short(inner[0].iter) != ROWS:
             problems.append("not every data record is visited for every column")
         else:
             il = inner[0]
@@ -172,12 +195,20 @@ def _shape(ctx) -> None:
                 if short(i.test) != f"{ci} < len({rv})":
                     problems.append(f"short records are detected by `{short(i.test)}`, expected `{ci} < len({rv})`")
                 body_t = " ".join(short(x, 100) for x in i.body)
-                if f"_infer_type({rv}[{ci}])" not in body_t and not (f"{rv}[{ci}]" in body_t and "_infer_type(value)" in body_t):
+                typed = [n for x in i.body for n in walk_no_nested(x) if isinstance(n, ast.Call) and short(n.func) == "_infer_type" and n.args]
+                cell_ok = False
+                for n in typed:
+                    a0 = n.args[0]
+                    if isinstance(a0, ast.Name):
+                        defs_ = [x.value for x in i.body if isinstance(x, ast.Assign) and short(x.targets[0]) == a0.id]
+                        a0 = defs_[0] if defs_ else a0
+                    cell_ok = cell_ok or short(a0) == f"{rv}[{ci}]"
+                if not cell_ok:
                     problems.append("present cells are not typed by _infer_type(row[col_idx])")
                 if [short(x) for x in i.orelse] != [f"{buf}.append(None)"]:
                     problems.append(f"a record shorter than the header is handled by {[short(x) for x in i.orelse]}, expected one None")
         app = [n for n in walk_no_nested(lp) if isinstance(n, ast.Call) and short(n.func) == f"{colsv}.append"]
-        if len(app) != 1 or short(app[0].args[0]) != f"Vector({buf}, name=header[{ci}])":
+        if len(app) != 1 or short(app[0].args[0]) != f"Vector({buf}, name={HEADER}[{ci}])":
             problems.append(f"a column is built as `{short(app[0].args[0], 60) if app else '?'}`, expected Vector(<cells>, "
                             f"name=header[{ci}]) - the header cell verbatim, dtype inferred")
         init = [s for s in lp.body if isinstance(s, ast.Assign) and short(s.targets[0]) == buf]
@@ -204,18 +235,18 @@ def _shape(ctx) -> None:
 
 def _nodata(ctx) -> None:
     prog = ctx.prog
-    g = prog.func("csv._read_csv_from_file")
-    e = [s for s in g.body if isinstance(s, ast.If) and short(s.test) == "not all_rows"]
+    g, d, R = _roles(prog)
+    e = [s for s in g.body if isinstance(s, ast.If) and short(s.test) == f"not {R['all']}"]
     ok = bool(e) and isinstance(e[0].body[0], ast.Return) and short(e[0].body[0].value) in ("Table()", "Table(())", "Table([])")
     ctx.ob("d.no-data", g, "empty", ok, "empty input -> Table()", e[0] if e else g.node, message="empty input does not return an empty Table")
-    h = [s for s in g.body if isinstance(s, ast.If) and short(s.test) == "not rows"]
+    h = [s for s in g.body if isinstance(s, ast.If) and short(s.test) == f"not {R['rows']}"]
     problems = []
     if not h:
         problems.append("header-only branch not found")
     else:
         r = h[0].body[-1]
-        v = short(r.value) if isinstance(r, ast.Return) else "?"
-        if v not in ("Table([Vector((), name=col) for col in header])", "Table([Vector([], name=col) for col in header])"):
+        v = cshort(r.value, {R["header"]: "HEADER"}) if isinstance(r, ast.Return) else "?"
+        if v not in ("Table([Vector((), name=_0) for _0 in HEADER])", "Table([Vector([], name=_0) for _0 in HEADER])"):
             problems.append(f"header-only input returns `{v}`, expected Table([Vector((), name=col) for col in header]) (a list: repeated "
                             f"names survive; empty data: no truthiness test on a Vector)")
         # must come before the column loop and after the header/rows split
